@@ -355,7 +355,7 @@ pub fn push_case(s: &mut Stream, sink: &mut Sink, cols: &[(String, DataType)], i
 pub fn run(args: &Args, sink: &mut Sink, rng: &mut Rng) {
     let cols = columns();
     let mut s = Stream::new("translate", REQ, "chk_translate", &format!("{} * sexpr", INFO_TY), "outcome (option sidx * option sexpr)");
-    s.shard = 150;
+    s.shard = 100;
     let g = Gen { cols: &cols };
     let names = |n: &str| n.trim_start_matches("ix").parse::<u64>().unwrap_or(9999);
     let n = args.vol(700, 12000);
